@@ -33,6 +33,7 @@ type fsInput struct {
 	Mode    string     `json:"mode"`              // fmt | render | boards
 	Size    int        `json:"size,omitempty"`    // fmt/render: number of extra lines in the source
 	Existed bool       `json:"existed,omitempty"` // render: out.svg exists beforehand
+	Symlink bool       `json:"symlink,omitempty"` // render/fmt: the file is reached through a symbolic link
 	KillAt  int        `json:"killAt,omitempty"`  // >0: SIGKILL at the KillAt-th file syscall (strace injection)
 	Boards  []fsBoard  `json:"boards,omitempty"`  // boards: the board tree
 	Links   [][]string `json:"links,omitempty"`
@@ -86,6 +87,7 @@ func driveFS(c *Ctx) error {
 				for _, s := range sizes {
 					inputs = append(inputs, fsInput{Mode: "render", Size: s, Existed: true}, fsInput{Mode: "render", Size: s, Existed: false})
 				}
+				inputs = append(inputs, fsInput{Mode: "render", Size: 1, Existed: true, Symlink: true}, fsInput{Mode: "fmt", Size: 2, Symlink: true})
 			case "boards":
 				inputs = append(inputs, boardInputs(c)...)
 			}
@@ -101,7 +103,7 @@ func driveFS(c *Ctx) error {
 
 // ---------------------------------------------------------------- board trees
 
-var boardNames = []string{"a", "b", "index", "layers", "a.b", "a/b", "..", "../x", "x y", ".", "x/index", "scenarios"}
+var boardNames = []string{"a", "b", "index", "layers", "a.b", "a/b", "..", "../x", "x y", ".", "x/index", "scenarios", "...", "a.", "a ", " ", "A", "a%2Fb", ".hidden"}
 var boardKinds = []string{"layers", "scenarios", "steps"}
 
 func boardInputs(c *Ctx) []fsInput {
@@ -121,6 +123,10 @@ func boardInputs(c *Ctx) []fsInput {
 	add(L("layers", "../x"))
 	add(L("layers", ".."), L("layers", "a"))
 	add(L("layers", "a", L("layers", "x")), L("layers", "a/x"))
+	add(L("layers", "..."), L("layers", "a"))
+	add(L("layers", "a."), L("layers", "a"), L("layers", "a "))
+	add(L("scenarios", " "), L("scenarios", ".hidden"), L("steps", "A"), L("steps", "a"))
+	add(L("layers", "a%2Fb"), L("layers", "a/b"))
 	n := 14
 	if c.Thorough() {
 		n = 400
@@ -215,6 +221,7 @@ func fsRun(c *Ctx, d2bin string, in fsInput, withKills bool) error {
 	var args []string
 	var target string
 	var old, expected []byte
+	alt := "" // the file a symbolic link at target points to
 	existed := true
 	nboards := 1
 	outdir := []string{}
@@ -227,7 +234,14 @@ func fsRun(c *Ctx, d2bin string, in fsInput, withKills bool) error {
 		}
 		old = []byte(sb.String())
 		target = filepath.Join(work, "f.d2")
-		os.WriteFile(target, old, 0o640)
+		if in.Symlink {
+			os.MkdirAll(filepath.Join(work, "store"), 0o755)
+			alt = filepath.Join(work, "store", "real.d2")
+			os.WriteFile(alt, old, 0o640)
+			os.Symlink(filepath.Join("store", "real.d2"), target)
+		} else {
+			os.WriteFile(target, old, 0o640)
+		}
 		m, err := d2parser.Parse("f.d2", bytes.NewReader(old), nil)
 		if err != nil {
 			return err
@@ -245,7 +259,14 @@ func fsRun(c *Ctx, d2bin string, in fsInput, withKills bool) error {
 		existed = in.Existed
 		if existed {
 			old = []byte("<svg>OLD CONTENT</svg>\n")
-			os.WriteFile(target, old, 0o644)
+			if in.Symlink {
+				os.MkdirAll(filepath.Join(work, "store"), 0o755)
+				alt = filepath.Join(work, "store", "real.svg")
+				os.WriteFile(alt, old, 0o644)
+				os.Symlink(filepath.Join("store", "real.svg"), target)
+			} else {
+				os.WriteFile(target, old, 0o644)
+			}
 		}
 		args = []string{"in.d2", "out.svg"}
 	case "boards":
@@ -312,7 +333,11 @@ func fsRun(c *Ctx, d2bin string, in fsInput, withKills bool) error {
 		}
 		return r
 	}
-	start := tr.M{"ev": "start", "mode": in.Mode, "target": rel(target), "existed": tr.B(existed), "oldLen": len(old),
+	altRel := ""
+	if alt != "" {
+		altRel = rel(alt)
+	}
+	start := tr.M{"ev": "start", "mode": in.Mode, "target": rel(target), "alt": altRel, "existed": tr.B(existed), "oldLen": len(old),
 		"newLen": len(expected), "outdir": outdir, "nboards": nboards}
 	evs := []tr.M{start}
 	nsys := 0
